@@ -417,7 +417,7 @@ class Formatter:
             "timestamp": None,
         }
 
-        m = re.search("^" + pattern + "$", time)
+        m = re.search("^" + pattern + r"\Z", time)
         if not m:
             raise ValueError(f"String does not match format {fmt}")
 
